@@ -443,7 +443,11 @@ func (g *Gen) execFunc(fn *ssa.Function, st *State, top bool, start *ssa.BasicBl
 				if top {
 					retOrd++
 					if g.lemma != nil {
-						g.oblige(cur, "lemma", "lemma["+g.lemma.Name+"].noexit", g.line(x.Pos()), "false")
+						goal := "false"
+					if g.lemma.OnReturn != "" {
+						goal = g.spec(cur, g.lemma.OnReturn, g.resultEnv(g.fn, g.c, res, g.env))
+					}
+					g.oblige(cur, "lemma", fmt.Sprintf("lemma[%s].return#%d", g.lemma.Name, retOrd), g.line(x.Pos()), goal)
 					} else {
 						g.doReturn(cur, x, res)
 					}
